@@ -458,8 +458,10 @@ def inline_module(tree: ast.Module, known: Optional[Set[str]]) -> ast.Module:
                 out.extend(new)
             return out
 
+        inlined_names: Set[str] = set()
+
         def names_now() -> Set[str]:
-            return _all_names(fn)
+            return _all_names(fn) | inlined_names
 
         def try_inline_stmt(st: ast.stmt, budget: List[int]) -> List[ast.stmt]:
             nonlocal changed_any
@@ -513,6 +515,7 @@ def inline_module(tree: ast.Module, known: Optional[Set[str]]) -> ast.Module:
                                 body = _expand(hh, x, tmp, names_now(), caller_self, st)
                             except _NotInlinable:
                                 return [st]
+                            inlined_names.update(_stored_names(body))
                             budget[0] -= 1
                             changed_any = True
                             body, direct = _fold_result(body, tmp)
@@ -532,6 +535,7 @@ def inline_module(tree: ast.Module, known: Optional[Set[str]]) -> ast.Module:
                 body = _expand(h, top, res, names_now(), caller_self, st)
             except _NotInlinable:
                 return [st]
+            inlined_names.update(_stored_names(body))
             budget[0] -= 1
             changed_any = True
             tail: List[ast.stmt] = []
